@@ -121,10 +121,21 @@ theorem keys_filter_nodup {d : Dict} (nd : d.keys.Nodup) (p : Str × Val → Boo
 
 def keptB (lang : Lang) (kv : Str × Val) : Bool := entryKept lang kv.1 kv.2
 
+/-- is the (accepted) value replaced by the boolean it equals?  `elif not isinstance(val,(bool,str))` -/
+def needsNorm (lang : Lang) (kv : Str × Val) : Bool :=
+  match lookup kv.1 Gen.TypConsts.allowedTypes with
+  | none => false
+  | some _ => if kv.1 = negKey ∧ lang = .fr then false else !(kv.2.isBool || kv.2.isStr)
+
+/-- the value that is stored for an accepted entry -/
+def normVal (lang : Lang) (k : Str) (v : Val) : Val := if needsNorm lang (k, v) then .b v.truthy else v
+def normKV (lang : Lang) (kv : Str × Val) : Str × Val := (kv.1, normVal lang kv.1 kv.2)
+
 theorem validateStep_eq (lang : Lang) (cur : Dict) (w : Nat) (kv : Str × Val) :
     validateStep lang (cur, w) kv =
-      (if keptB lang kv then cur else Dict.del cur kv.1, if entryWarns lang kv.1 kv.2 then w + 1 else w) := by
-  unfold validateStep keptB entryKept entryWarns entryKept
+      (if keptB lang kv then (if needsNorm lang kv then Dict.set cur kv.1 (.b kv.2.truthy) else cur)
+       else Dict.del cur kv.1, if entryWarns lang kv.1 kv.2 then w + 1 else w) := by
+  unfold validateStep keptB entryKept entryWarns entryKept needsNorm
   cases h : lookup kv.1 Gen.TypConsts.allowedTypes with
   | none => simp
   | some allowed =>
@@ -133,40 +144,76 @@ theorem validateStep_eq (lang : Lang) (cur : Dict) (w : Nat) (kv : Str × Val) :
       cases hb : (kv.2.isStr || kv.2.isBool) <;> simp
     · simp only [hn, if_false]
       cases hb : kv.2.pyIn allowed <;> simp
+      all_goals (try (split <;> rfl))
+
+theorem set_middle (a r : Dict) (k : Str) (v v' : Val) (hk : ∀ x ∈ a, x.1 ≠ k) :
+    Dict.set (a ++ (k, v) :: r) k v' = a ++ (k, v') :: r := by
+  induction a with
+  | nil => simp [Dict.set]
+  | cons x t ih =>
+    obtain ⟨k2, v2⟩ := x
+    have : k2 ≠ k := hk (k2, v2) List.mem_cons_self
+    simp only [List.cons_append, Dict.set, this, if_false]
+    rw [ih (fun y hy => hk y (List.mem_cons_of_mem _ hy))]
+
+theorem keys_map_norm (lang : Lang) (l : Dict) : Dict.keys (l.map (normKV lang)) = Dict.keys l := by
+  simp [Dict.keys, normKV, List.map_map, Function.comp_def]
 
 theorem validate_loop (lang : Lang) (done rest : Dict) (w : Nat) (nd : (done ++ rest).keys.Nodup) :
-    (rest.foldl (validateStep lang) (done.filter (keptB lang) ++ rest, w)).1 = (done ++ rest).filter (keptB lang) := by
+    (rest.foldl (validateStep lang) ((done.filter (keptB lang)).map (normKV lang) ++ rest, w)).1 =
+      ((done ++ rest).filter (keptB lang)).map (normKV lang) := by
   induction rest generalizing done w with
   | nil => simp
   | cons kv r ih =>
     simp only [List.foldl_cons]
     rw [validateStep_eq]
     have nd2 : ((done ++ [kv]) ++ r).keys.Nodup := by simpa using nd
+    -- the key occurs nowhere else
+    have hnot : ∀ x ∈ done ++ r, x.1 ≠ kv.1 := by
+      intro x hx e
+      simp only [Dict.keys, List.map_append, List.map_cons] at nd
+      rw [List.nodup_append] at nd
+      obtain ⟨_, nd_r, disj⟩ := nd
+      rcases List.mem_append.mp hx with hx | hx
+      · exact disj x.1 (List.mem_map.mpr ⟨x, hx, rfl⟩) kv.1 (by simp) e
+      · have := (List.nodup_cons.mp nd_r).1
+        exact this (e ▸ List.mem_map.mpr ⟨x, hx, rfl⟩)
+    have hnotD : ∀ x ∈ (done.filter (keptB lang)).map (normKV lang), x.1 ≠ kv.1 := by
+      intro x hx
+      obtain ⟨y, hy, rfl⟩ := List.mem_map.mp hx
+      exact hnot y (List.mem_append_left _ (List.mem_filter.mp hy).1)
     by_cases hk : keptB lang kv = true
     · simp only [hk, if_true]
-      have := ih (done ++ [kv]) (if entryWarns lang kv.1 kv.2 then w + 1 else w) nd2
-      simpa [List.filter_append, hk] using this
+      have key := ih (done ++ [kv]) (if entryWarns lang kv.1 kv.2 then w + 1 else w) nd2
+      have e1 : (List.filter (keptB lang) (done ++ [kv])).map (normKV lang) ++ r =
+          (done.filter (keptB lang)).map (normKV lang) ++ normKV lang kv :: r := by
+        simp [List.filter_append, hk]
+      rw [e1] at key
+      by_cases hn : needsNorm lang kv = true
+      · simp only [hn, if_true]
+        obtain ⟨k0, v0⟩ := kv
+        rw [set_middle _ r k0 v0 _ hnotD]
+        have : normKV lang (k0, v0) = (k0, Val.b v0.truthy) := by simp [normKV, normVal, hn]
+        rw [this] at key
+        simpa using key
+      · have hn' : needsNorm lang kv = false := by simpa using hn
+        simp only [hn', Bool.false_eq_true, if_false]
+        have : normKV lang kv = kv := by
+          obtain ⟨k0, v0⟩ := kv
+          simp [normKV, normVal, hn']
+        rw [this] at key
+        simpa using key
     · have hk' : keptB lang kv = false := by simpa using hk
       simp only [hk', Bool.false_eq_true, if_false]
-      -- the key occurs nowhere else
-      have hnot : ∀ x ∈ done ++ r, x.1 ≠ kv.1 := by
-        intro x hx e
-        simp only [Dict.keys, List.map_append, List.map_cons] at nd
-        rw [List.nodup_append] at nd
-        obtain ⟨_, nd_r, disj⟩ := nd
-        rcases List.mem_append.mp hx with hx | hx
-        · exact disj x.1 (List.mem_map.mpr ⟨x, hx, rfl⟩) kv.1 (by simp) e
-        · have := (List.nodup_cons.mp nd_r).1
-          exact this (e ▸ List.mem_map.mpr ⟨x, hx, rfl⟩)
-      have hdel : Dict.del (done.filter (keptB lang) ++ kv :: r) kv.1 = done.filter (keptB lang) ++ r := by
+      have hdel : Dict.del ((done.filter (keptB lang)).map (normKV lang) ++ kv :: r) kv.1 =
+          (done.filter (keptB lang)).map (normKV lang) ++ r := by
         unfold Dict.del
         rw [List.filter_append, List.filter_cons]
         simp only [bne_self_eq_false, Bool.false_eq_true, if_false]
         congr 1
         · apply List.filter_eq_self.mpr
           intro x hx
-          have := hnot x (List.mem_append_left _ (List.mem_filter.mp hx).1)
-          simpa using this
+          simpa using hnotD x hx
         · apply List.filter_eq_self.mpr
           intro x hx
           have := hnot x (List.mem_append_right _ hx)
@@ -175,9 +222,10 @@ theorem validate_loop (lang : Lang) (done rest : Dict) (w : Nat) (nd : (done ++ 
       have := ih (done ++ [kv]) (if entryWarns lang kv.1 kv.2 then w + 1 else w) nd2
       simpa [List.filter_append, hk'] using this
 
-/-- for a dict (unique keys) the validation loop keeps exactly the entries `entryKept` accepts -/
+/-- for a dict (unique keys) the validation loop keeps exactly the entries `entryKept` accepts, a numeric 0/1 replaced by
+    the boolean it equals -/
 theorem validate_fst (lang : Lang) (types : Dict) (nd : types.keys.Nodup) :
-    (validate lang types).1 = types.filter (keptB lang) := by
+    (validate lang types).1 = (types.filter (keptB lang)).map (normKV lang) := by
   have := validate_loop lang [] types 0 (by simpa using nd)
   simpa [validate] using this
 
@@ -200,6 +248,19 @@ theorem validate_snd (lang : Lang) (types : Dict) :
 
 /-! ### the stored map, key by key -/
 
+theorem lookup_map_norm (lang : Lang) (l : Dict) (k : Str) :
+    lookup k (l.map (normKV lang)) = (lookup k l).map (normVal lang k) := by
+  induction l with
+  | nil => rfl
+  | cons x t ih =>
+    obtain ⟨k2, v2⟩ := x
+    by_cases e : k2 = k
+    · subst e; simp [lookup, normKV]
+    · simp [lookup, normKV, e, ih]
+
+/-- what one call with the dict `d` stores for the flag `k`: the accepted entry, normalised; `none`: nothing -/
+def lookupV (lang : Lang) (d : Dict) (k : Str) : Option Val := (lookup k (d.filter (keptB lang))).map (normVal lang k)
+
 /-- SPEC: the value of flag `k` after the calls `ds` (in call order, first call first): the entry for `k` of the LAST
     call that has one surviving validation; `none` when there is none -/
 def effective (lang : Lang) : List Dict → Str → Option Val
@@ -207,14 +268,14 @@ def effective (lang : Lang) : List Dict → Str → Option Val
   | d :: ds, k =>
     match effective lang ds k with
     | some v => some v
-    | none => lookup k (d.filter (keptB lang))
+    | none => lookupV lang d k
 
 theorem lookup_typ_stored (lang : Lang) (st : Option Dict) (d : Dict) (nd : d.keys.Nodup) (k : Str) :
     lookup k ((typ lang true st (.dict d)).stored.getD []) =
-      (match lookup k (d.filter (keptB lang)) with
+      (match lookupV lang d k with
        | some v => some v
        | none => lookup k (st.getD [])) := by
-  unfold typ
+  unfold typ lookupV
   simp only [Bool.not_true, Bool.false_eq_true, if_false]
   have hv := validate_fst lang d nd
   cases hvv : validate lang d with
@@ -225,10 +286,13 @@ theorem lookup_typ_stored (lang : Lang) (st : Option Dict) (d : Dict) (nd : d.ke
     cases st with
     | none =>
       simp only [Option.getD]
+      rw [lookup_map_norm]
       cases lookup k (List.filter (keptB lang) d) <;> simp [lookup]
     | some s0 =>
       simp only [Option.getD]
-      rw [lookup_update, lookup_reverse_nodup (keys_filter_nodup nd _)]
+      have ndm : Dict.keys ((d.filter (keptB lang)).map (normKV lang)) |>.Nodup := by
+        rw [keys_map_norm]; exact keys_filter_nodup nd _
+      rw [lookup_update, lookup_reverse_nodup ndm, lookup_map_norm]
 
 /-- the stored map after the calls `ds` applied in order (first call first) -/
 def storedAfter (lang : Lang) (st : Option Dict) (ds : List Dict) : Option Dict :=
